@@ -8,8 +8,10 @@
   Specification side (`Spec.execOp`, `Spec.evalInstrs`, `Spec.evalScript`): a run in which every executed
   signature opcode examines only unlisted keys is identical with and without the option.
   Parsing (`Model.parsePretendValidExpr` vs `Spec.pretendPairs`): malformed lists are rejected identically and
-  the tables built for a well-formed list satisfy the two `CfgRel` clauses — provided no signature is listed
-  for two different keys (`Functional`); without that proviso the clause fails (known finding F-C11-dup-sig).
+  the tables built for EVERY well-formed list satisfy the two `CfgRel` clauses: the key table holds exactly the
+  listed keys, the pair table (a `std::set` of (signature, key) pairs) exactly the listed pairs — also when one
+  signature is listed for several keys, one key with several signatures, or a pair several times.
+  Section 7 joins the two: from the option TEXT to the behaviour of the signature opcodes.
 -/
 import Btcdeb
 import BtcdebProofs.Refine.Basic
@@ -29,7 +31,7 @@ def noPretend (e : SEE) : SEE := { e with pretendMap := [], pretendKeys := [] }
     checker `cx` (transaction context), the flags and the signature version of `e` are; neither the encoding
     checks nor the checker are consulted (the right-hand side mentions none of them) -/
 theorem C11_listed_accepted_checksig (cx : Ctx) (e : SEE) (sig key : Bytes)
-    (hk : e.pretendKeys.contains key = true) (hp : pretendLookup e.pretendMap sig = some key) :
+    (hk : e.pretendKeys.contains key = true) (hp : pretendHas e.pretendMap sig key = true) :
     evalChecksig cx e sig key = pure (true, e.execdata) := by
   unfold evalChecksig
   rw [hk, hp]
@@ -53,7 +55,7 @@ theorem C11_listed_accepted_checksig (cx : Ctx) (e : SEE) (sig key : Bytes)
 /-- OP_CHECKSIG with a listed pair on top of the stack pushes `true` (then the generic stack-size check) -/
 theorem C11_listed_OP_CHECKSIG (cx : Ctx) (e : SEE) (s : List Bytes) (sig key : Bytes) (fExec : Bool) (pc : Bytes)
     (hs : e.stack = s ++ [sig, key])
-    (hk : e.pretendKeys.contains key = true) (hp : pretendLookup e.pretendMap sig = some key) :
+    (hk : e.pretendKeys.contains key = true) (hp : pretendHas e.pretendMap sig key = true) :
     execOpcode cx e .OP_CHECKSIG fExec pc = sizeCheck { e with stack := s ++ [vchTrue] } := by
   unfold execOpcode
   have hlen : ¬ (s.length + 2 < 2) := by omega
@@ -62,7 +64,7 @@ theorem C11_listed_OP_CHECKSIG (cx : Ctx) (e : SEE) (s : List Bytes) (sig key : 
 /-- OP_CHECKSIGVERIFY with a listed pair on top of the stack continues with both items removed -/
 theorem C11_listed_OP_CHECKSIGVERIFY (cx : Ctx) (e : SEE) (s : List Bytes) (sig key : Bytes) (fExec : Bool) (pc : Bytes)
     (hs : e.stack = s ++ [sig, key])
-    (hk : e.pretendKeys.contains key = true) (hp : pretendLookup e.pretendMap sig = some key) :
+    (hk : e.pretendKeys.contains key = true) (hp : pretendHas e.pretendMap sig key = true) :
     execOpcode cx e .OP_CHECKSIGVERIFY fExec pc = sizeCheck { e with stack := s } := by
   unfold execOpcode
   have hlen : ¬ (s.length + 2 < 2) := by omega
@@ -73,7 +75,7 @@ theorem C11_listed_OP_CHECKSIGADD (cx : Ctx) (e : SEE) (s : List Bytes) (sig nb 
     (fExec : Bool) (pc : Bytes)
     (hsv : e.sigversion ≠ .BASE ∧ e.sigversion ≠ .WITNESS_V0)
     (hs : e.stack = s ++ [sig, nb, key]) (hn : num nb e.requireMinimal = .ok n)
-    (hk : e.pretendKeys.contains key = true) (hp : pretendLookup e.pretendMap sig = some key) :
+    (hk : e.pretendKeys.contains key = true) (hp : pretendHas e.pretendMap sig key = true) :
     execOpcode cx e .OP_CHECKSIGADD fExec pc = sizeCheck { e with stack := s ++ [serialize (n + 1)] } := by
   unfold execOpcode
   have hlen : ¬ (s.length + 3 < 3) := by omega
@@ -88,27 +90,27 @@ theorem C11_listed_OP_CHECKSIGADD (cx : Ctx) (e : SEE) (s : List Bytes) (sig nb 
 theorem C11_listed_multisig_step (cx : Ctx) (e : SEE) (code : Bytes) (st : List Bytes)
     (nSigs nKeys isig ikey : Nat) (sig key : Bytes)
     (hsig : top st isig = .ok sig) (hkey : top st ikey = .ok key)
-    (hk : e.pretendKeys.contains key = true) (hp : pretendLookup e.pretendMap sig = some key) :
+    (hk : e.pretendKeys.contains key = true) (hp : pretendHas e.pretendMap sig key = true) :
     multisigLoop cx e code st (nSigs + 1) (nKeys + 1) isig ikey =
       if nSigs > nKeys then pure false
       else multisigLoop cx e code st nSigs nKeys (isig + 1) (ikey + 1) := by
   rw [multisigLoop]
-  simp only [hsig, hkey, hk, hp, ok_bind, if_true, beq_self_eq_true]
+  simp only [hsig, hkey, hk, hp, ok_bind, if_true]
   rfl
 
 /-- positions `isig, isig+1, …` hold signatures and positions `ikey, ikey+1, …` keys such that the loop started
     with `nSigs` signatures and `nKeys` keys meets, at every turn, a pair that the option decides
-    (a listed key): either the listed signature for it (consumed), or another signature (the key is skipped) -/
+    (a listed key): either a signature listed for it (consumed), or a signature not listed for it (the key is skipped) -/
 inductive MockRun (e : SEE) (st : List Bytes) : (nSigs nKeys isig ikey : Nat) → Prop
   | done (nKeys isig ikey : Nat) : MockRun e st 0 nKeys isig ikey
   | hit {nSigs nKeys isig ikey : Nat} {sig key : Bytes} :
       top st isig = .ok sig → top st ikey = .ok key →
-      e.pretendKeys.contains key = true → pretendLookup e.pretendMap sig = some key →
+      e.pretendKeys.contains key = true → pretendHas e.pretendMap sig key = true →
       MockRun e st nSigs nKeys (isig + 1) (ikey + 1) →
       MockRun e st (nSigs + 1) (nKeys + 1) isig ikey
   | skip {nSigs nKeys isig ikey : Nat} {sig key : Bytes} :
       top st isig = .ok sig → top st ikey = .ok key →
-      e.pretendKeys.contains key = true → pretendLookup e.pretendMap sig ≠ some key →
+      e.pretendKeys.contains key = true → pretendHas e.pretendMap sig key = false →
       MockRun e st (nSigs + 1) nKeys isig (ikey + 1) →
       MockRun e st (nSigs + 1) (nKeys + 1) isig ikey
 
@@ -120,7 +122,7 @@ theorem MockRun.le {e : SEE} {st : List Bytes} {nSigs nKeys isig ikey : Nat}
   | hit _ _ _ _ _ ih => omega
   | skip _ _ _ _ _ ih => omega
 
-/-- m-of-n, general form: if the signatures on the stack are, in order, the listed signatures of a subsequence of
+/-- m-of-n, general form: if the signatures on the stack are, in order, signatures listed for a subsequence of
     the (listed) keys, the loop returns `true` — for every checker, flag set and signature version -/
 theorem C11_listed_accepted_multisig_run (cx : Ctx) (e : SEE) (code : Bytes) (st : List Bytes)
     {nSigs nKeys isig ikey : Nat} (h : MockRun e st nSigs nKeys isig ikey) :
@@ -139,9 +141,7 @@ theorem C11_listed_accepted_multisig_run (cx : Ctx) (e : SEE) (code : Bytes) (st
     | zero => omega
     | succ k =>
       rw [multisigLoop]
-      have hne : (pretendLookup e.pretendMap sig == some key) = false := by
-        rw [beq_eq_false_iff_ne]; exact hp
-      simp only [hsig, hkey, hk, hne, ok_bind, if_true]
+      simp only [hsig, hkey, hk, hp, ok_bind, if_true]
       show (if (if false = true then nSigs else nSigs + 1) > k + 1 then pure false
             else multisigLoop cx e code st (if false = true then nSigs else nSigs + 1) (k + 1)
               (if false = true then isig + 1 else isig) (ikey + 1)) = pure true
@@ -151,10 +151,10 @@ theorem C11_listed_accepted_multisig_run (cx : Ctx) (e : SEE) (code : Bytes) (st
       exact ih
 
 /-- m-of-n, plain form (m = n): positions `isig + j` / `ikey + j` (j < n) hold the j-th signature and the j-th
-    key, every key is listed and every signature is the one listed for its key: the loop returns `true` -/
+    key, every key is listed and every signature is listed for its key: the loop returns `true` -/
 theorem C11_listed_accepted_multisig (cx : Ctx) (e : SEE) (code : Bytes) (st : List Bytes) (n isig ikey : Nat)
     (h : ∀ j, j < n → ∃ sig key, top st (isig + j) = .ok sig ∧ top st (ikey + j) = .ok key ∧
-          e.pretendKeys.contains key = true ∧ pretendLookup e.pretendMap sig = some key) :
+          e.pretendKeys.contains key = true ∧ pretendHas e.pretendMap sig key = true) :
     multisigLoop cx e code st n n isig ikey = pure true := by
   apply C11_listed_accepted_multisig_run cx e code st
   induction n generalizing isig ikey with
@@ -172,35 +172,32 @@ theorem C11_listed_accepted_multisig (cx : Ctx) (e : SEE) (code : Bytes) (st : L
 -- 3. another signature for a listed key is not accepted on the strength of the option
 
 private theorem evalChecksig_noPretend_eq (cx : Ctx) (e : SEE) (sig key : Bytes)
-    (h : (e.pretendKeys.contains key && pretendLookup e.pretendMap sig == some key) = false) :
+    (h : (e.pretendKeys.contains key && pretendHas e.pretendMap sig key) = false) :
     evalChecksig cx e sig key = evalChecksig cx (noPretend e) sig key := by
   unfold evalChecksig
   rw [h]
   simp only [noPretend, List.contains_nil, Bool.false_and, Bool.false_eq_true, if_false]
   rfl
 
-/-- (a) `EvalChecksig` for a listed key and a signature that is not the one listed for it: the option contributes
+/-- (a) `EvalChecksig` for a listed key and a signature that is not listed for it: the option contributes
     nothing — the result is whatever the real verification says (the same call with empty tables) -/
 theorem C11_other_signature_not_accepted (cx : Ctx) (e : SEE) (sig key : Bytes)
-    (_hk : e.pretendKeys.contains key = true) (hp : pretendLookup e.pretendMap sig ≠ some key) :
+    (_hk : e.pretendKeys.contains key = true) (hp : pretendHas e.pretendMap sig key = false) :
     evalChecksig cx e sig key = evalChecksig cx { e with pretendMap := [], pretendKeys := [] } sig key := by
   apply evalChecksig_noPretend_eq
-  have : (pretendLookup e.pretendMap sig == some key) = false := by rw [beq_eq_false_iff_ne]; exact hp
-  rw [this, Bool.and_false]
+  rw [hp, Bool.and_false]
 
 /-- (b) in the CHECKMULTISIG loop such a pair counts as a failed match (`ok = false`): the key is used up, the
     signature stays; in particular the real verification is NOT consulted for a listed key -/
 theorem C11_other_signature_multisig_step (cx : Ctx) (e : SEE) (code : Bytes) (st : List Bytes)
     (nSigs nKeys isig ikey : Nat) (sig key : Bytes)
     (hsig : top st isig = .ok sig) (hkey : top st ikey = .ok key)
-    (hk : e.pretendKeys.contains key = true) (hp : pretendLookup e.pretendMap sig ≠ some key) :
+    (hk : e.pretendKeys.contains key = true) (hp : pretendHas e.pretendMap sig key = false) :
     multisigLoop cx e code st (nSigs + 1) (nKeys + 1) isig ikey =
       if nSigs + 1 > nKeys then pure false
       else multisigLoop cx e code st (nSigs + 1) nKeys isig (ikey + 1) := by
   rw [multisigLoop]
-  have hne : (pretendLookup e.pretendMap sig == some key) = false := by
-    rw [beq_eq_false_iff_ne]; exact hp
-  simp only [hsig, hkey, hk, hne, ok_bind, if_true]
+  simp only [hsig, hkey, hk, hp, ok_bind, if_true]
   rfl
 
 -- =============================================================================================
@@ -643,67 +640,222 @@ theorem parse_agree_rejected_total (vcx : VCtx) (text : Bytes) (hz : ∀ c ∈ t
     · exact absurd h (hnoabort x)
   · intro h; exact Or.inl h
 
-/-- a well-formed list: the parser yields tables `(m, k)`; `k` is the set of listed keys, and — provided no
-    signature is listed for two different keys — `m` holds exactly the listed pairs.  These are the two
-    mock-signature clauses of the refinement relation `CfgRel`. -/
+/-- a well-formed list — ANY well-formed list: the parser yields tables `(m, k)`; `k` is the set of listed keys and
+    `m` the set of listed pairs (no pair stored twice).  These are the two mock-signature clauses of the refinement
+    relation `CfgRel` (there the pair clause is only needed for listed keys). -/
 theorem parse_agree_tables (vcx : VCtx) (text : Bytes) (hz : ∀ c ∈ text, c ≠ 0) (ps : List (Bytes × Bytes))
     (h : Spec.pretendPairs (fun t => (valueData vcx t).toOption) text = some ps) :
     ∃ m k, parsePretendValidExpr vcx text = .ok (some (m, k)) ∧
       (∀ key, k.contains key = ps.any (fun p => p.2 == key)) ∧
-      (Functional ps → ∀ sig key, k.contains key = true → (pretendLookup m sig == some key) = ps.contains (sig, key)) := by
-  refine ⟨(tablesOf ps).1, (tablesOf ps).2, ?_, tablesOf_keys ps, ?_⟩
-  · apply parse_accepts
-    rw [cText_eq text hz]; exact h
-  · intro hf sig key _
-    exact tablesOf_pair ps hf sig key
+      (∀ sig key, pretendHas m sig key = ps.contains (sig, key)) ∧
+      m.Nodup := by
+  refine ⟨(tablesOf ps).1, (tablesOf ps).2, ?_, tablesOf_keys ps, tablesOf_pair ps, tablesOf_nodup ps⟩
+  apply parse_accepts
+  rw [cText_eq text hz]; exact h
 
-/-- the same, phrased on an environment and a configuration: what the parser builds for a functional list
-    satisfies `CfgRel.pretendKeys` and `CfgRel.pretendPair` -/
+/-- the same, phrased on an environment and a configuration: what the parser builds for a well-formed list
+    satisfies `CfgRel.pretendKeys` and `CfgRel.pretendPair` — no side condition on the list -/
 theorem parse_gives_CfgRel_clauses (vcx : VCtx) (text : Bytes) (hz : ∀ c ∈ text, c ≠ 0)
     (cfg : Spec.Cfg) (e : SEE)
     (hspec : Spec.pretendPairs (fun t => (valueData vcx t).toOption) text = some cfg.pretend)
-    (hmodel : parsePretendValidExpr vcx text = .ok (some (e.pretendMap, e.pretendKeys)))
-    (hf : Functional cfg.pretend) :
+    (hmodel : parsePretendValidExpr vcx text = .ok (some (e.pretendMap, e.pretendKeys))) :
     (∀ key, e.pretendKeys.contains key = Spec.keyListed cfg key) ∧
     (∀ sig key, e.pretendKeys.contains key = true →
-      (pretendLookup e.pretendMap sig == some key) = Spec.pairListed cfg sig key) := by
-  obtain ⟨m, k, h1, h2, h3⟩ := parse_agree_tables vcx text hz cfg.pretend hspec
+      pretendHas e.pretendMap sig key = Spec.pairListed cfg sig key) := by
+  obtain ⟨m, k, h1, h2, h3, _⟩ := parse_agree_tables vcx text hz cfg.pretend hspec
   rw [hmodel] at h1
   cases h1
-  exact ⟨h2, h3 hf⟩
+  exact ⟨h2, fun sig key _ => h3 sig key⟩
 
-/-- WITHOUT `Functional` the pair clause fails (known finding F-C11-dup-sig): for the list `S:P1,S:P2` the map keeps
-    only the last key of `S` while both keys are in the key set — the listed pair `(S, P1)` is not in the tables -/
-theorem F_C11_dup_sig_tables :
+/-- the mock short-circuit of the model is the specification's `mockHit`, for the tables of every well-formed list:
+    "the key is a mock key and the pair is in the pair set" ⇔ "the pair is listed" -/
+theorem parse_gives_mockHit (vcx : VCtx) (text : Bytes) (hz : ∀ c ∈ text, c ≠ 0)
+    (cfg : Spec.Cfg) (e : SEE)
+    (hspec : Spec.pretendPairs (fun t => (valueData vcx t).toOption) text = some cfg.pretend)
+    (hmodel : parsePretendValidExpr vcx text = .ok (some (e.pretendMap, e.pretendKeys))) (sig key : Bytes) :
+    (e.pretendKeys.contains key && pretendHas e.pretendMap sig key) = Spec.mockHit cfg sig key := by
+  obtain ⟨m, k, h1, h2, h3, _⟩ := parse_agree_tables vcx text hz cfg.pretend hspec
+  rw [hmodel] at h1
+  cases h1
+  unfold Spec.mockHit Spec.pairListed
+  rw [h2, h3]
+  cases hp : cfg.pretend.contains (sig, key) with
+  | false => rw [Bool.and_false]
+  | true =>
+    have : (cfg.pretend.any fun p => p.2 == key) = true := by
+      rw [List.any_eq_true]
+      exact ⟨(sig, key), List.contains_iff_mem.mp hp, by simp⟩
+    rw [this]; rfl
+
+/-- the former finding F-C11-dup-sig, now a theorem in the other direction: for the list `S:P1,S:P2` BOTH pairs are
+    in the pair table (with the `std::map` keyed by the signature the first one was lost), both keys are mock keys,
+    and the crossed pairs of an unrelated signature are not -/
+theorem same_sig_two_keys_tables :
     let S : Bytes := [0xAA]; let P1 : Bytes := [0x01]; let P2 : Bytes := [0x02]
     let ps := [(S, P1), (S, P2)]
-    ¬ Functional ps ∧
-    (tablesOf ps).2.contains P1 = true ∧
-    (pretendLookup (tablesOf ps).1 S == some P1) = false ∧
-    ps.contains (S, P1) = true := by
-  refine ⟨?_, by decide, by decide, by decide⟩
-  intro hf
-  have := hf [0xAA] [0x01] [0x02] (by simp) (by simp)
-  exact absurd this (by decide)
+    (tablesOf ps).2.contains P1 = true ∧ (tablesOf ps).2.contains P2 = true ∧
+    pretendHas (tablesOf ps).1 S P1 = true ∧ pretendHas (tablesOf ps).1 S P2 = true ∧
+    pretendHas (tablesOf ps).1 [0xBB] P1 = false := by
+  refine ⟨by decide, by decide, by decide, by decide, by decide⟩
 
-/-- …and its effect: with those tables the model does NOT accept the listed pair `(S, P1)` on the strength of the
-    option (it falls through to real verification), whereas the specification accepts it -/
-theorem F_C11_dup_sig_effect (cx : Ctx) (e : SEE) (cfg : Spec.Cfg) (st : Spec.St)
+/-- …and its effect: with those tables model and specification both accept `(S, P1)` and `(S, P2)` on the strength
+    of the option, whatever the checker says -/
+theorem same_sig_two_keys_effect (cx : Ctx) (e : SEE) (cfg : Spec.Cfg) (st : Spec.St)
     (hm : e.pretendMap = (tablesOf [([0xAA], [0x01]), ([0xAA], [0x02])]).1)
     (hk : e.pretendKeys = (tablesOf [([0xAA], [0x01]), ([0xAA], [0x02])]).2)
     (hc : cfg.pretend = [([0xAA], [0x01]), ([0xAA], [0x02])]) :
-    evalChecksig cx e [0xAA] [0x01] = evalChecksig cx { e with pretendMap := [], pretendKeys := [] } [0xAA] [0x01] ∧
-    Spec.checkSig cfg st [0xAA] [0x01] = .ok (true, st) := by
-  constructor
-  · apply C11_other_signature_not_accepted
+    evalChecksig cx e [0xAA] [0x01] = pure (true, e.execdata) ∧
+    evalChecksig cx e [0xAA] [0x02] = pure (true, e.execdata) ∧
+    Spec.checkSig cfg st [0xAA] [0x01] = .ok (true, st) ∧
+    Spec.checkSig cfg st [0xAA] [0x02] = .ok (true, st) := by
+  refine ⟨?_, ?_, ?_, ?_⟩
+  · apply C11_listed_accepted_checksig
+    · rw [hk]; decide
+    · rw [hm]; decide
+  · apply C11_listed_accepted_checksig
     · rw [hk]; decide
     · rw [hm]; decide
   · unfold Spec.checkSig Spec.mockHit Spec.pairListed
     rw [hc]
     rfl
+  · unfold Spec.checkSig Spec.mockHit Spec.pairListed
+    rw [hc]
+    rfl
 
 -- =============================================================================================
--- 7. the hypotheses are satisfiable
+-- 7. from the option text to the opcodes: every well-formed list, no side condition
+
+/-- the session was started with `--pretend-valid=text`: its environment carries the tables the parser built -/
+def StartedWith (vcx : VCtx) (text : Bytes) (e : SEE) : Prop :=
+  parsePretendValidExpr vcx text = .ok (some (e.pretendMap, e.pretendKeys))
+
+/-- the list of pairs the option text denotes (the specification's reading) -/
+def Denotes (vcx : VCtx) (text : Bytes) (ps : List (Bytes × Bytes)) : Prop :=
+  (∀ c ∈ text, c ≠ 0) ∧ Spec.pretendPairs (fun t => (valueData vcx t).toOption) text = some ps
+
+/-- the tables of a session started with a well-formed list -/
+theorem started_tables {vcx : VCtx} {text : Bytes} {ps : List (Bytes × Bytes)} {e : SEE}
+    (hd : Denotes vcx text ps) (hs : StartedWith vcx text e) :
+    (∀ key, e.pretendKeys.contains key = ps.any (fun p => p.2 == key)) ∧
+    (∀ sig key, pretendHas e.pretendMap sig key = ps.contains (sig, key)) := by
+  obtain ⟨m, k, h1, h2, h3, _⟩ := parse_agree_tables vcx text hd.1 ps hd.2
+  unfold StartedWith at hs
+  rw [hs] at h1
+  cases h1
+  exact ⟨h2, h3⟩
+
+private theorem started_listed {vcx : VCtx} {text : Bytes} {ps : List (Bytes × Bytes)} {e : SEE}
+    (hd : Denotes vcx text ps) (hs : StartedWith vcx text e) {sig key : Bytes} (hl : (sig, key) ∈ ps) :
+    e.pretendKeys.contains key = true ∧ pretendHas e.pretendMap sig key = true := by
+  obtain ⟨h2, h3⟩ := started_tables hd hs
+  constructor
+  · rw [h2, List.any_eq_true]; exact ⟨(sig, key), hl, by simp⟩
+  · rw [h3]; exact List.contains_iff_mem.mpr hl
+
+private theorem started_unlisted {vcx : VCtx} {text : Bytes} {ps : List (Bytes × Bytes)} {e : SEE}
+    (hd : Denotes vcx text ps) (hs : StartedWith vcx text e) {sig key : Bytes} (hl : (sig, key) ∉ ps) :
+    pretendHas e.pretendMap sig key = false := by
+  rw [(started_tables hd hs).2]
+  cases hc : ps.contains (sig, key) with
+  | false => rfl
+  | true => exact absurd (List.contains_iff_mem.mp hc) hl
+
+/-- a listed pair is accepted by `EvalChecksig` (OP_CHECKSIG / OP_CHECKSIGVERIFY / OP_CHECKSIGADD), for every
+    well-formed list — in particular when the signature is also listed for other keys -/
+theorem C11_text_listed_checksig (vcx : VCtx) (text : Bytes) (ps : List (Bytes × Bytes)) (cx : Ctx) (e : SEE)
+    (hd : Denotes vcx text ps) (hs : StartedWith vcx text e) (sig key : Bytes) (hl : (sig, key) ∈ ps) :
+    evalChecksig cx e sig key = pure (true, e.execdata) :=
+  C11_listed_accepted_checksig cx e sig key (started_listed hd hs hl).1 (started_listed hd hs hl).2
+
+theorem C11_text_listed_OP_CHECKSIG (vcx : VCtx) (text : Bytes) (ps : List (Bytes × Bytes)) (cx : Ctx) (e : SEE)
+    (hd : Denotes vcx text ps) (hs : StartedWith vcx text e) (s : List Bytes) (sig key : Bytes) (fExec : Bool) (pc : Bytes)
+    (hst : e.stack = s ++ [sig, key]) (hl : (sig, key) ∈ ps) :
+    execOpcode cx e .OP_CHECKSIG fExec pc = sizeCheck { e with stack := s ++ [vchTrue] } :=
+  C11_listed_OP_CHECKSIG cx e s sig key fExec pc hst (started_listed hd hs hl).1 (started_listed hd hs hl).2
+
+theorem C11_text_listed_OP_CHECKSIGVERIFY (vcx : VCtx) (text : Bytes) (ps : List (Bytes × Bytes)) (cx : Ctx) (e : SEE)
+    (hd : Denotes vcx text ps) (hs : StartedWith vcx text e) (s : List Bytes) (sig key : Bytes) (fExec : Bool) (pc : Bytes)
+    (hst : e.stack = s ++ [sig, key]) (hl : (sig, key) ∈ ps) :
+    execOpcode cx e .OP_CHECKSIGVERIFY fExec pc = sizeCheck { e with stack := s } :=
+  C11_listed_OP_CHECKSIGVERIFY cx e s sig key fExec pc hst (started_listed hd hs hl).1 (started_listed hd hs hl).2
+
+theorem C11_text_listed_OP_CHECKSIGADD (vcx : VCtx) (text : Bytes) (ps : List (Bytes × Bytes)) (cx : Ctx) (e : SEE)
+    (hd : Denotes vcx text ps) (hs : StartedWith vcx text e) (s : List Bytes) (sig nb key : Bytes) (n : Int)
+    (fExec : Bool) (pc : Bytes) (hsv : e.sigversion ≠ .BASE ∧ e.sigversion ≠ .WITNESS_V0)
+    (hst : e.stack = s ++ [sig, nb, key]) (hn : num nb e.requireMinimal = .ok n) (hl : (sig, key) ∈ ps) :
+    execOpcode cx e .OP_CHECKSIGADD fExec pc = sizeCheck { e with stack := s ++ [serialize (n + 1)] } :=
+  C11_listed_OP_CHECKSIGADD cx e s sig nb key n fExec pc hsv hst hn (started_listed hd hs hl).1 (started_listed hd hs hl).2
+
+/-- CHECKMULTISIG matching, n-of-n: every (j-th signature, j-th key) is a listed pair → the loop returns `true`
+    (the same signature may stand for several keys) -/
+theorem C11_text_listed_multisig (vcx : VCtx) (text : Bytes) (ps : List (Bytes × Bytes)) (cx : Ctx) (e : SEE)
+    (hd : Denotes vcx text ps) (hs : StartedWith vcx text e) (code : Bytes) (st : List Bytes) (n isig ikey : Nat)
+    (h : ∀ j, j < n → ∃ sig key, top st (isig + j) = .ok sig ∧ top st (ikey + j) = .ok key ∧ (sig, key) ∈ ps) :
+    multisigLoop cx e code st n n isig ikey = pure true := by
+  apply C11_listed_accepted_multisig
+  intro j hj
+  obtain ⟨sig, key, h1, h2, h3⟩ := h j hj
+  exact ⟨sig, key, h1, h2, (started_listed hd hs h3).1, (started_listed hd hs h3).2⟩
+
+/-- CHECKMULTISIG matching, one turn on a listed pair: consumed, no check and no checker call -/
+theorem C11_text_listed_multisig_step (vcx : VCtx) (text : Bytes) (ps : List (Bytes × Bytes)) (cx : Ctx) (e : SEE)
+    (hd : Denotes vcx text ps) (hs : StartedWith vcx text e) (code : Bytes) (st : List Bytes)
+    (nSigs nKeys isig ikey : Nat) (sig key : Bytes)
+    (hsig : top st isig = .ok sig) (hkey : top st ikey = .ok key) (hl : (sig, key) ∈ ps) :
+    multisigLoop cx e code st (nSigs + 1) (nKeys + 1) isig ikey =
+      if nSigs > nKeys then pure false
+      else multisigLoop cx e code st nSigs nKeys (isig + 1) (ikey + 1) :=
+  C11_listed_multisig_step cx e code st nSigs nKeys isig ikey sig key hsig hkey
+    (started_listed hd hs hl).1 (started_listed hd hs hl).2
+
+/-- a pair that is NOT listed gets nothing from the option in `EvalChecksig`, whether or not its key (or its
+    signature) occurs in other listed pairs: the result is that of the real verification -/
+theorem C11_text_unlisted_pair_checksig (vcx : VCtx) (text : Bytes) (ps : List (Bytes × Bytes)) (cx : Ctx) (e : SEE)
+    (hd : Denotes vcx text ps) (hs : StartedWith vcx text e) (sig key : Bytes) (hl : (sig, key) ∉ ps) :
+    evalChecksig cx e sig key = evalChecksig cx { e with pretendMap := [], pretendKeys := [] } sig key := by
+  apply evalChecksig_noPretend_eq
+  rw [started_unlisted hd hs hl, Bool.and_false]
+
+/-- a pair that is not listed but whose key is a mock key (listed with some signature) is REJECTED by the
+    CHECKMULTISIG matching: failed match, the key is used up, the real verification is not consulted -/
+theorem C11_text_unlisted_pair_multisig_step (vcx : VCtx) (text : Bytes) (ps : List (Bytes × Bytes)) (cx : Ctx) (e : SEE)
+    (hd : Denotes vcx text ps) (hs : StartedWith vcx text e) (code : Bytes) (st : List Bytes)
+    (nSigs nKeys isig ikey : Nat) (sig key other : Bytes)
+    (hsig : top st isig = .ok sig) (hkey : top st ikey = .ok key)
+    (hmock : (other, key) ∈ ps) (hl : (sig, key) ∉ ps) :
+    multisigLoop cx e code st (nSigs + 1) (nKeys + 1) isig ikey =
+      if nSigs + 1 > nKeys then pure false
+      else multisigLoop cx e code st (nSigs + 1) nKeys isig (ikey + 1) :=
+  C11_other_signature_multisig_step cx e code st nSigs nKeys isig ikey sig key hsig hkey
+    (started_listed hd hs hmock).1 (started_unlisted hd hs hl)
+
+/-- keys that are not listed: the whole CHECKMULTISIG loop runs as without the option -/
+theorem C11_text_unlisted_keys_multisig (vcx : VCtx) (text : Bytes) (ps : List (Bytes × Bytes)) (cx : Ctx) (e : SEE)
+    (hd : Denotes vcx text ps) (hs : StartedWith vcx text e) (code : Bytes) (st : List Bytes)
+    (nSigs nKeys isig ikey : Nat)
+    (h : ∀ j, j < nKeys → ∀ key, top st (ikey + j) = .ok key → ∀ p ∈ ps, p.2 ≠ key) :
+    multisigLoop cx e code st nSigs nKeys isig ikey =
+      multisigLoop cx { e with pretendMap := [], pretendKeys := [] } code st nSigs nKeys isig ikey := by
+  apply C11_unlisted_unaffected_multisig
+  intro j hj key hk
+  rw [(started_tables hd hs).1]
+  cases hc : ps.any (fun p => p.2 == key) with
+  | false => rfl
+  | true =>
+    obtain ⟨p, hp, hpk⟩ := List.any_eq_true.mp hc
+    exact absurd (by simpa using hpk) (h j hj key hk p hp)
+
+/-- the tables of a session started with a well-formed list satisfy the mock-signature clauses of `CfgRel` for the
+    configuration whose `pretend` list is the denoted one; hence (Refine/*, C01, C02) the whole session refines the
+    specification's run with that list -/
+theorem C11_text_CfgRel_clauses (vcx : VCtx) (text : Bytes) (cfg : Spec.Cfg) (e : SEE)
+    (hd : Denotes vcx text cfg.pretend) (hs : StartedWith vcx text e) :
+    (∀ key, e.pretendKeys.contains key = Spec.keyListed cfg key) ∧
+    (∀ sig key, e.pretendKeys.contains key = true → pretendHas e.pretendMap sig key = Spec.pairListed cfg sig key) :=
+  parse_gives_CfgRel_clauses vcx text hd.1 cfg e hd.2 hs
+
+-- =============================================================================================
+-- 8. the hypotheses are satisfiable
 
 namespace Examples
 
@@ -749,7 +901,7 @@ example : MockRun (env []) [[], [0xB1], [1], [0x01], [0x02], [2]] 1 2 5 2 :=
     (.hit (sig := [0xB1]) (key := [0x01]) (by rfl) (by rfl) (by decide) (by decide) (.done _ _ _))
 
 -- 3: a different signature for the listed key 01 / 4: the unlisted key 09
-example : (env []).pretendKeys.contains [0x01] = true ∧ pretendLookup (env []).pretendMap [0xCC] ≠ some [0x01] := by decide
+example : (env []).pretendKeys.contains [0x01] = true ∧ pretendHas (env []).pretendMap [0xCC] [0x01] = false := by decide
 example : (env []).pretendKeys.contains [0x09] = false := by decide
 
 -- 5: the script `<cc> <09> CHECKSIG` (key 09 unlisted) under `--pretend-valid=b1:01`
@@ -765,19 +917,45 @@ example : UnlistedRun cfg (Spec.decodePrefix 5 [1, 0xCC, 1, 0x09, 0xac]).1 0 { c
 -- …whereas `<b1> <01> CHECKSIG` does involve a listed key (and indeed runs differently)
 example : unlistedRunB cfg (Spec.decodePrefix 5 [1, 0xB1, 1, 0x01, 0xac]).1 0 { codeFrom := [1, 0xB1, 1, 0x01, 0xac] } = false := by rfl
 
--- 6: `aa:bb,cc:dd` is well formed, functional, and parsed identically; `aa:bb,,` is rejected identically
+-- 6: `aa:bb,cc:dd` is well formed and parsed identically; `aa:bb,,` is rejected identically
 def vcx : VCtx := { sha256 := id, ripemd160 := id }
 def text : Bytes := [97, 97, 58, 98, 98, 44, 99, 99, 58, 100, 100]
 
 example : Spec.pretendPairs (fun t => (valueData vcx t).toOption) text = some [([0xaa], [0xbb]), ([0xcc], [0xdd])] := by rfl
 example : ∀ c ∈ text, c ≠ 0 := by decide
-example : Functional [([0xaa], [0xbb]), ([0xcc], [0xdd])] := by
-  intro s k1 k2 h1 h2
-  simp at h1 h2
-  rcases h1 with ⟨rfl, rfl⟩ | ⟨rfl, rfl⟩ <;> rcases h2 with ⟨h, rfl⟩ | ⟨h, rfl⟩ <;> first | rfl | (exact absurd h (by decide))
 example : parsePretendValidExpr vcx text = .ok (some ([([0xaa], [0xbb]), ([0xcc], [0xdd])], [[0xbb], [0xdd]])) := by rfl
 example : Spec.pretendPairs (fun t => (valueData vcx t).toOption) [97, 97, 58, 98, 98, 44, 44] = none := by rfl
 example : parsePretendValidExpr vcx [97, 97, 58, 98, 98, 44, 44] = .ok none := by rfl
+
+-- 6/7: the same signature under two keys, `aa:bb,aa:cc` (and the first pair once more: `…,aa:bb`): well formed; both
+-- pairs are in the tables, the repeated pair is stored once; a session started with it accepts `aa` for `bb` and for `cc`
+-- (also as the two signatures of a 2-of-2 CHECKMULTISIG) and gives nothing to the unlisted pair `cc:bb`
+def text2 : Bytes := [97, 97, 58, 98, 98, 44, 97, 97, 58, 99, 99, 44, 97, 97, 58, 98, 98]
+def ps2 : List (Bytes × Bytes) := [([0xaa], [0xbb]), ([0xaa], [0xcc]), ([0xaa], [0xbb])]
+def env2 (stack : List Bytes) : SEE :=
+  { script := [], pbegincodehash := [], flags := 0, sigversion := .BASE, requireMinimal := false, stack := stack,
+    pretendMap := [([0xaa], [0xbb]), ([0xaa], [0xcc])], pretendKeys := [[0xbb], [0xcc]] }
+
+theorem denotes2 : Denotes vcx text2 ps2 := ⟨by decide, by rfl⟩
+theorem started2 (stack : List Bytes) : StartedWith vcx text2 (env2 stack) := by
+  show parsePretendValidExpr vcx text2 = _
+  rfl
+
+example : evalChecksig rejectAll (env2 []) [0xaa] [0xbb] = pure (true, (env2 []).execdata) :=
+  C11_text_listed_checksig vcx text2 ps2 _ _ denotes2 (started2 []) _ _ (by decide)
+example : evalChecksig rejectAll (env2 []) [0xaa] [0xcc] = pure (true, (env2 []).execdata) :=
+  C11_text_listed_checksig vcx text2 ps2 _ _ denotes2 (started2 []) _ _ (by decide)
+example : evalChecksig rejectAll (env2 []) [0xcc] [0xbb] =
+    evalChecksig rejectAll { env2 [] with pretendMap := [], pretendKeys := [] } [0xcc] [0xbb] :=
+  C11_text_unlisted_pair_checksig vcx text2 ps2 _ _ denotes2 (started2 []) _ _ (by decide)
+-- stack = dummy S S 2 P1 P2 2 with S = aa, P1 = bb, P2 = cc
+example : multisigLoop rejectAll (env2 []) [] [[], [0xaa], [0xaa], [2], [0xbb], [0xcc], [2]] 2 2 5 2 = pure true := by
+  apply C11_text_listed_multisig vcx text2 ps2 _ _ denotes2 (started2 [])
+  intro j hj
+  have : j = 0 ∨ j = 1 := by omega
+  rcases this with rfl | rfl
+  · exact ⟨[0xaa], [0xcc], by rfl, by rfl, by decide⟩
+  · exact ⟨[0xaa], [0xbb], by rfl, by rfl, by decide⟩
 
 end Examples
 
